@@ -573,9 +573,11 @@ impl BuiltInFunction {
                     format!("string bottom index `{top}` could not be used to index (usize)")
                 })?;
 
-                let start = top - bottom + 1;
+                if bottom > top {
+                    bail!("cannot delete from index {bottom} to index {top}: the range is reversed")
+                }
 
-                let mut result = String::with_capacity(s.len() - start);
+                let mut result = String::with_capacity(s.len().saturating_sub(top - bottom));
 
                 result.push_str(&s[..bottom]);
                 result.push_str(&s[top..]);
